@@ -33,6 +33,8 @@ CONSTANTS GenFiles,      \* generated paths in play, subset of 1..4: 1 templated
           CopyGate,      \* TRUE: _copy_header goes through _handle_overwrite (the code); FALSE: negative control
           Truncates,     \* TRUE: open(..., "w") truncates (the code); FALSE: negative control ("r+" style rewrite)
           Privileged,    \* TRUE: the caller is root (permission bits never refuse an open)
+          OptsSel,       \* which options StartRun ranges over: "all" or a named subset (bounded-exhaustive case emission)
+          EnvOn,         \* FALSE: no environment actions (case emission of pure run histories)
           Record,        \* TRUE: keep the history for case emission
           MaxSteps       \* history length bound for emission; 0 = unbounded (exhaustive check)
 
@@ -92,7 +94,11 @@ GS == {"never", "asneeded", "only", "always"}
 AllOpts == {o \in [fm : Modes, no : BOOLEAN, omit : BOOLEAN, gs : GS, v : Variants] :
                ~(o.omit /\ o.gs = "always")}          \* rejected by the argument parser
 NoOpts == [fm |-> 0, no |-> FALSE, omit |-> FALSE, gs |-> "never", v |-> 0]
-Lpp(o) == o.v \in {2, 3}                               \* a line post-processor is in force
+Lpp(o) == o.v \in {2, 3}
+RunOpts == IF OptsSel = "all" THEN AllOpts
+           ELSE IF OptsSel = "q28" THEN {o \in AllOpts : o.fm \in {292, 420} /\ o.v = 0}
+           ELSE IF OptsSel = "t56" THEN {o \in AllOpts : o.fm \in {292, 420} /\ o.v \in {0, 2}}
+           ELSE {o \in AllOpts : o.fm \in {292, 420} /\ o.v = 0 /\ (o.gs = "asneeded" \/ (~o.omit /\ o.gs \in {"only", "never"}))}                               \* a line post-processor is in force
 
 (* ArgparseRunner._should_generate_support; c/c++ support consists of serialization support only            *)
 SupportRuns(o) == IF o.gs = "asneeded" THEN ~o.omit ELSE o.gs \in {"always", "only"}
@@ -207,10 +213,10 @@ Remove(p) ==
 
 Next ==
     \/ /\ CanStep
-       /\ \/ \E o \in AllOpts : StartRun(o)
-          \/ \E p \in AllPaths, k \in {"long", "short"}, m \in Modes : Foreign(p, k, m)
-          \/ \E p \in AllPaths, m \in Modes : Chmod(p, m)
-          \/ \E p \in AllPaths : Remove(p)
+       /\ \/ \E o \in RunOpts : StartRun(o)
+          \/ EnvOn /\ \E p \in AllPaths, k \in {"long", "short"}, m \in Modes : Foreign(p, k, m)
+          \/ EnvOn /\ \E p \in AllPaths, m \in Modes : Chmod(p, m)
+          \/ EnvOn /\ \E p \in AllPaths : Remove(p)
     \/ HandleOverwrite \/ OpenTruncate \/ Write \/ CopyMode \/ SetMode \/ Settle
 
 Spec == Init /\ [][Next]_vars
